@@ -508,6 +508,16 @@ func (g *gen) determinism(p *Plan) {
 				pre = append(pre, WOp{Op: "close"})
 			}
 			pre = append(pre, WOp{Op: "reset", Sink: 1})
+			if g.r.Chance(1, 2) {
+				// the earlier stream ran under other settings; the judged
+				// settings are applied after the Reset
+				ho := vo
+				ho.BS = g.r.PickInt(4, 5, 6, 7)
+				ho.BSum = g.r.Bool()
+				w.Opts = ho
+				jo := vo
+				pre = append(pre, WOp{Op: "apply", Opts: &jo})
+			}
 			w.Ops = append(pre, w.Ops...)
 			w.Sinks = []SinkPlan{{Yields: g.r.Pick(60, 25, 15)}, w.Sinks[0]}
 		}
